@@ -298,6 +298,7 @@ def inline_closure_calls(F, body, bodies=None, depth=0, direct=True, changed=())
         cb = bodies.get(d) or F.bodies.get(d)
         if cb is None or cb.get('argc', 1) != 1 or len(cb['blocks']) > MAX_BLOCKS:
             continue
+        o[1]['expanded'] = True       # (marks the closure literal: its body now also stands at the place it was called from)
         todo.append((i, d, cb, 'then_with', o[1]))
     if not todo:
         return body
